@@ -1,5 +1,7 @@
 import PprofVerif.Lemmas.Session
 import PprofVerif.Model.Codec
+import PprofVerif.Lemmas.ComposeCodec
+import PprofVerif.Lemmas.ComposeParse
 /-!
 # C10 — each interactive command or web request sees the pristine profile
 
@@ -209,5 +211,61 @@ example : isAssignLine exInit.stypes (lit " total_cpu ") = true ∧ isAssignLine
           isAssignLine exInit.stypes (lit "top 5 foo") = false := by decide +kernel
 
 end Examples
+
+/-! ## composed with C01 (and C02): the decoder is the real codec model
+
+`command_sees_normalized_profile` takes the codec round trip as hypothesis `hrt`.  Here it is
+discharged by C01's `parse_serialize` (through its lemma-level twin
+`Codec.parse_serialize_normalize`, Lemmas/ComposeCodec.lean): the statement is now about `Codec.serialize` /
+`Codec.parseUncompressed` (tied to profile/encode.go by C01's correspondence) for every profile
+meeting C01's hypotheses; for a profile that itself came out of the parser (C02) only the size
+side condition `EncSizes` remains. -/
+
+/-- **Every report command sees the normalised original, with the real codec.**  For every valid
+profile `P₀` with aligned units, key-sorted label maps, integers in their Go types and a
+re-encoding within the size limits: `makeProfileCopier` succeeds (bytes `b`), and in the session
+started from `b`, after EVERY live history `h`, EVERY report command line `c` produces exactly the
+report generator's output on `normalize P₀` — whatever earlier commands did to their copies. -/
+theorem command_sees_normalized_profile_codec (report : Profile → Config → List Str → ρ × Profile)
+    (fl : Str → Option Str) (P₀ : Profile) (stypes : List Str) (dflt : Str)
+    (hv : P₀.Valid) (ha : P₀.unitsAligned = true) (hs : P₀.mapsSorted = true) (hr : Codec.InRange P₀)
+    (hz : ∀ x, Codec.preEncode P₀ = .ok x → Codec.EncSizes x) :
+    ∃ b, Codec.serialize P₀ = .ok b ∧
+      ∀ (h : List Str) (c : Str) (cmd : List Str) (vcfg : Config),
+        (run ⟨Codec.parseUncompressed, report, fl⟩ (init b stypes dflt) h).done = false →
+        isReportLine stypes c = true →
+        parseCommandLine (cfgAfter ⟨Codec.parseUncompressed, report, fl⟩ (init b stypes dflt) h)
+            (fields (trimSpace c)) = .ok (cmd, vcfg) →
+        (step ⟨Codec.parseUncompressed, report, fl⟩
+            (run ⟨Codec.parseUncompressed, report, fl⟩ (init b stypes dflt) h) c).2
+          = [.report (report (Codec.Profile.normalize P₀) vcfg cmd).1] := by
+  obtain ⟨b, hser, hrt⟩ := Codec.parse_serialize_normalize P₀ hv ha hs hr hz
+  exact ⟨b, hser, fun h c cmd vcfg alive hc hp =>
+    command_sees_normalized_profile report fl P₀ b stypes dflt h c cmd vcfg hser hrt alive hc hp⟩
+
+/-- … and when `P₀` is itself what `ParseData` returned for some input file `b₀` (the CLI's
+situation), validity, alignment, sortedness and the integer ranges are all consequences (C02);
+only the size side condition on the re-encoding remains. -/
+theorem command_sees_normalized_parsed_profile (report : Profile → Config → List Str → ρ × Profile)
+    (fl : Str → Option Str) (b₀ : Str) (P₀ : Profile) (stypes : List Str) (dflt : Str)
+    (hparse : Parse.parseData b₀ = .ok P₀)
+    (hz : ∀ x, Codec.preEncode P₀ = .ok x → Codec.EncSizes x) :
+    ∃ b, Codec.serialize P₀ = .ok b ∧
+      ∀ (h : List Str) (c : Str) (cmd : List Str) (vcfg : Config),
+        (run ⟨Codec.parseUncompressed, report, fl⟩ (init b stypes dflt) h).done = false →
+        isReportLine stypes c = true →
+        parseCommandLine (cfgAfter ⟨Codec.parseUncompressed, report, fl⟩ (init b stypes dflt) h)
+            (fields (trimSpace c)) = .ok (cmd, vcfg) →
+        (step ⟨Codec.parseUncompressed, report, fl⟩
+            (run ⟨Codec.parseUncompressed, report, fl⟩ (init b stypes dflt) h) c).2
+          = [.report (report (Codec.Profile.normalize P₀) vcfg cmd).1] := by
+  obtain ⟨hv, ha, hs, hr⟩ := Parse.parseData_ok_contract b₀ P₀ hparse
+  exact command_sees_normalized_profile_codec report fl P₀ stypes dflt hv ha hs hr hz
+
+-- non-vacuity: the sample input of C02 is accepted; its result meets every hypothesis of both forms
+example : Parse.parseData Parse.sampleBytes = .ok Parse.sampleParsed ∧
+    Parse.sampleParsed.Valid ∧ Parse.sampleParsed.unitsAligned = true ∧ Parse.sampleParsed.mapsSorted = true ∧
+    ∀ x, Codec.preEncode Parse.sampleParsed = .ok x → Codec.EncSizes x :=
+  ⟨Parse.parseData_sampleBytes, by decide, by decide, by decide, Parse.sampleParsed_encSizes⟩
 
 end PV.Props.C10
